@@ -56,7 +56,8 @@ def model_value(model, v):
     return repr(v)
 
 
-def run_target(t, timeout_ms=10000):
+def run_target(t, timeout_ms=None):
+    timeout_ms = timeout_ms or getattr(t, "timeout_ms", 10000)
     res = {"name": t.name, "key": dict(t.key), "obligations": 0, "discharged": 0, "backends": {}, "paths": 0, "solver_s": 0.0,
            "failures": [], "undecided": [], "errors": [], "notes": [], "status": "ok", "faithful": 0, "sample": None}
     t0 = time.time()
@@ -84,9 +85,10 @@ def run_target(t, timeout_ms=10000):
                 res["obligations"] += 1
                 seen_clauses.add(clause)
                 st, model = prove(s, goal, timeout_ms=timeout_ms)
-                if st == "proved":
+                if st in ("proved", "proved-cvc5"):
                     res["discharged"] += 1
-                    res["backends"]["z3"] = res["backends"].get("z3", 0) + 1
+                    bk = "z3" if st == "proved" else "cvc5"
+                    res["backends"][bk] = res["backends"].get(bk, 0) + 1
                     if res["sample"] is None:
                         res["sample"] = {"obligation": "%s.%s" % (t.name, clause), "path_condition": [str(c)[:80] for c in s.pc][:6],
                                          "outcome": repr(outcome)[:80], "goal": str(goal)[:160], "backend": "z3"}
